@@ -6,7 +6,12 @@ use crate::geom::*;
 use crate::model::*;
 use crate::rng::Rng;
 
-pub const POINT_CLASSES: [&str; 8] = ["uniform", "polar", "antimeridian", "seam", "dvertex", "fcentre", "tseam", "edgemid"];
+pub const POINT_CLASSES: [&str; 9] = ["uniform", "polar", "antimeridian", "seam", "dvertex", "fcentre", "tseam", "edgemid", "switch"];
+
+/// angular distances from a corner of the projection's triangles at which the inverse projection switches between a
+/// series and a closed form (read off the code: safe_acos at x = 1e-3, i.e. 2e-3 rad; vector_difference at 1e-8, i.e.
+/// 2e-8 rad; slerp at 1e-12 rad): cells straddling these rings are where a wrong series coefficient would show
+pub const SWITCH_RADII: [f64; 3] = [2e-3, 2e-8, 1e-12];
 
 pub struct Frame {
     /// 12 face centres, geographic frame (unit vectors); order: north, upper ring k=0..4, lower ring k=0..4, south
@@ -95,6 +100,14 @@ pub fn nudge(rng: &mut Rng, p: V3, eps: f64) -> V3 {
     normalize(add(p, add(scale(e1, eps * t.cos()), scale(e2, eps * t.sin()))))
 }
 
+/// point at exact angular distance r from c in a random direction, as lon/lat
+pub fn nudge_exact(rng: &mut Rng, c: V3, r: f64) -> (f64, f64) {
+    let (e1, e2) = tangent_basis(c);
+    let t = rng.range(0.0, std::f64::consts::TAU);
+    let dir = add(scale(e1, t.cos()), scale(e2, t.sin()));
+    lonlat_from_unit(add(scale(c, r.cos()), scale(dir, r.sin())))
+}
+
 /// log-distributed offset in [1e-16, 1e-1] rad, sometimes exactly 0
 pub fn log_eps(rng: &mut Rng) -> f64 {
     if rng.chance(0.08) {
@@ -162,6 +175,20 @@ pub fn point(rng: &mut Rng, fr: &Frame, class: &str) -> (f64, f64) {
             let on = add(scale(c, t.cos()), scale(dir, t.sin()));
             let eps = log_eps(rng) * rng.sign();
             lonlat_from_unit(normalize(add(on, scale(side, eps))))
+        }
+        "switch" => {
+            // on / next to a ring of radius SWITCH_RADII around a face centre, an edge midpoint or a dodecahedron vertex
+            let c = match rng.below(3) {
+                0 => *rng.pick(&fr.centres),
+                1 => {
+                    let (i, j) = *rng.pick(&fr.edges);
+                    normalize(add(fr.centres[i], fr.centres[j]))
+                }
+                _ => *rng.pick(&fr.vertices),
+            };
+            let r0 = if rng.chance(0.7) { SWITCH_RADII[0] } else { *rng.pick(&SWITCH_RADII) };
+            let delta = if rng.chance(0.1) { 0.0 } else { rng.log10(1.0, 9.0) * rng.sign() };
+            nudge_exact(rng, c, r0 * (1.0 + delta))
         }
         "edgemid" => {
             let (i, j) = *rng.pick(&fr.edges);
